@@ -1,1 +1,248 @@
-// harness bodies compiled inside quinn-proto/src/connection/streams/state.rs (feature __verif-hooks)
+// Harness bodies for quinn-proto/src/connection/streams/state.rs (connection-level stream accounting).
+
+use crate::TransportErrorCode;
+
+const V62: u64 = 1 << 62;
+
+/// StreamsState with empty stream maps and arbitrary scalar accounting.
+pub struct Scalars {
+    pub server: bool,
+    pub next: [u64; 2],
+    pub max: [u64; 2],
+    pub max_remote: [u64; 2],
+    pub sent_max_remote: [u64; 2],
+    pub allocated_remote_count: [u64; 2],
+    pub max_concurrent_remote_count: [u64; 2],
+    pub max_data: u64,
+    pub receive_window: u64,
+    pub local_max_data: u64,
+    pub sent_max_data: u64,
+    pub data_sent: u64,
+    pub data_recvd: u64,
+    pub unacked_data: u64,
+    pub send_window: u64,
+    pub stream_receive_window: u64,
+    pub shrink_debt: u64,
+}
+
+impl Default for Scalars {
+    fn default() -> Self {
+        Self {
+            server: false, next: [0; 2], max: [0; 2], max_remote: [0; 2], sent_max_remote: [0; 2],
+            allocated_remote_count: [0; 2], max_concurrent_remote_count: [0; 2], max_data: 0, receive_window: 0,
+            local_max_data: 0, sent_max_data: 0, data_sent: 0, data_recvd: 0, unacked_data: 0, send_window: 0,
+            stream_receive_window: 0, shrink_debt: 0,
+        }
+    }
+}
+
+pub fn mk_streams(s: &Scalars) -> StreamsState {
+    StreamsState {
+        side: if s.server { Side::Server } else { Side::Client },
+        send: FxHashMap::default(),
+        recv: FxHashMap::default(),
+        free_recv: Vec::new(),
+        next: s.next,
+        max: s.max,
+        max_remote: s.max_remote,
+        sent_max_remote: s.sent_max_remote,
+        allocated_remote_count: s.allocated_remote_count,
+        max_concurrent_remote_count: s.max_concurrent_remote_count,
+        flow_control_adjusted: false,
+        next_remote: [0, 0],
+        opened: [false, false],
+        next_reported_remote: [0, 0],
+        send_streams: 0,
+        pending: PendingStreamsQueue::new(),
+        events: VecDeque::new(),
+        connection_blocked: Vec::new(),
+        max_data: s.max_data,
+        receive_window: s.receive_window,
+        local_max_data: s.local_max_data,
+        sent_max_data: unsafe { VarInt::from_u64_unchecked(s.sent_max_data) },
+        data_sent: s.data_sent,
+        data_recvd: s.data_recvd,
+        unacked_data: s.unacked_data,
+        send_window: s.send_window,
+        stream_receive_window: s.stream_receive_window,
+        initial_max_stream_data_uni: 0u32.into(),
+        initial_max_stream_data_bidi_local: 0u32.into(),
+        initial_max_stream_data_bidi_remote: 0u32.into(),
+        receive_window_shrink_debt: s.shrink_debt,
+        streams_blocked: [false, false],
+    }
+}
+
+/// C05.a: connection-level send credit.  From any state with data_sent <= max_data:
+/// `write_limit` never exceeds the peer's remaining connection credit nor the local
+/// unacknowledged-data bound (no underflow), and `received_max_data` is monotone: a stale,
+/// duplicated or reordered MAX_DATA never lowers the limit, a larger one raises it exactly.
+pub fn write_limit_and_max_data(max_data: u64, data_sent: u64, unacked: u64, send_window: u64, update: u64) -> u32 {
+    if max_data >= V62 || data_sent > max_data || update >= V62 {
+        return 0;
+    }
+    let mut st = mk_streams(&Scalars { max_data, data_sent, unacked_data: unacked, send_window, ..Default::default() });
+    let wl = st.write_limit();
+    assert!(wl <= max_data - data_sent);
+    assert!(wl <= send_window.saturating_sub(unacked));
+    assert!(wl == (max_data - data_sent).min(send_window.saturating_sub(unacked)));
+    st.received_max_data(unsafe { VarInt::from_u64_unchecked(update) });
+    assert!(st.max_data == max_data.max(update));
+    assert!(st.max_data >= max_data && st.data_sent <= st.max_data);
+    let wl2 = st.write_limit();
+    assert!(wl2 >= wl);
+    let f = 1 | (if update < max_data { 2 } else { 0 }) | (if wl == 0 { 4 } else { 0 }) | (if unacked > send_window { 8 } else { 0 });
+    core::mem::forget(st);
+    f
+}
+
+/// C05.a / C03.h: `received_max_streams` (MAX_STREAMS): values above 2^60 are a
+/// FRAME_ENCODING_ERROR, otherwise the limit is monotone and `streams_blocked` is cleared only by
+/// a real increase.
+pub fn received_max_streams(uni: bool, cur: u64, count: u64, blocked: bool) -> u32 {
+    if cur > MAX_STREAM_COUNT {
+        return 0;
+    }
+    let dir = if uni { Dir::Uni } else { Dir::Bi };
+    let mut st = mk_streams(&Scalars::default());
+    st.max[dir as usize] = cur;
+    st.streams_blocked[dir as usize] = blocked;
+    let r = st.received_max_streams(dir, count);
+    let f;
+    if count > MAX_STREAM_COUNT {
+        assert!(matches!(&r, Err(x) if x.code == TransportErrorCode::FRAME_ENCODING_ERROR));
+        assert!(st.max[dir as usize] == cur);
+        f = 2;
+    } else {
+        assert!(r.is_ok());
+        assert!(st.max[dir as usize] == cur.max(count));
+        assert!(st.streams_blocked[dir as usize] == (blocked && count <= cur));
+        assert!(st.events.len() == usize::from(count > cur));
+        f = if count > cur { 1 } else { 4 };
+    }
+    assert!(st.max[1 - dir as usize] == 0);
+    core::mem::forget(st);
+    core::mem::forget(r);
+    f
+}
+
+/// C06.b: `validate_receive_id`: a peer may use exactly the remotely-initiated indices below the
+/// advertised stream-count limit (STREAM_LIMIT_ERROR otherwise), never our send-only streams and
+/// never a bidirectional stream of ours that we have not opened (STREAM_STATE_ERROR).
+pub fn validate_receive_id(server: bool, raw_id: u64, next_bi: u64, max_remote_bi: u64, max_remote_uni: u64) -> u32 {
+    if raw_id >= V62 {
+        return 0;
+    }
+    let id = crate::StreamId(raw_id);
+    let mut st = mk_streams(&Scalars { server, next: [next_bi, 0], max_remote: [max_remote_bi, max_remote_uni], ..Default::default() });
+    let r = st.validate_receive_id(id);
+    let local = (raw_id & 1 == 1) == server;
+    let uni = raw_id & 2 != 0;
+    let index = raw_id >> 2;
+    let f;
+    if local {
+        if uni || index >= next_bi {
+            assert!(matches!(&r, Err(x) if x.code == TransportErrorCode::STREAM_STATE_ERROR));
+            f = 2;
+        } else {
+            assert!(r.is_ok());
+            f = 1;
+        }
+    } else {
+        let limit = if uni { max_remote_uni } else { max_remote_bi };
+        if index >= limit {
+            assert!(matches!(&r, Err(x) if x.code == TransportErrorCode::STREAM_LIMIT_ERROR));
+            f = 4;
+        } else {
+            assert!(r.is_ok());
+            f = 8;
+        }
+    }
+    core::mem::forget(st);
+    core::mem::forget(r);
+    f
+}
+
+/// C06.c: connection-level credit return.  `add_read_credits` grows `local_max_data` by exactly
+/// the credits supplied minus outstanding shrink debt (saturating), debt only shrinks, and a
+/// MAX_DATA update is requested iff at least receive_window/8 of unannounced credit exists and
+/// the limit is still representable.
+pub fn add_read_credits(local_max: u64, sent_max: u64, window: u64, debt: u64, credits: u64) -> u32 {
+    if sent_max >= V62 || sent_max > local_max || window >= V62 {
+        return 0;
+    }
+    let mut st = mk_streams(&Scalars { local_max_data: local_max, sent_max_data: sent_max, receive_window: window, shrink_debt: debt, ..Default::default() });
+    let tx = st.add_read_credits(credits);
+    let net = credits.saturating_sub(debt);
+    assert!(st.local_max_data == local_max.saturating_add(net));
+    assert!(st.receive_window_shrink_debt == debt.saturating_sub(credits));
+    assert!(st.local_max_data >= local_max);
+    assert!(st.local_max_data - local_max <= credits);
+    let want = st.local_max_data < V62 && st.local_max_data - sent_max >= window / 8;
+    assert!(tx.0 == want);
+    let f = (if want { 2 } else { 1 }) | (if debt > 0 && credits > debt { 4 } else { 0 }) | (if st.local_max_data >= V62 { 8 } else { 0 });
+    core::mem::forget(st);
+    f
+}
+
+/// C06.c: `set_receive_window`: expanding raises the limit by the difference at once, shrinking
+/// only records debt (the advertised limit is never taken back).
+pub fn set_receive_window(local_max: u64, window: u64, debt: u64, new_window: u64) -> u32 {
+    if window >= V62 || new_window >= V62 {
+        return 0;
+    }
+    let mut st = mk_streams(&Scalars { local_max_data: local_max, receive_window: window, shrink_debt: debt, ..Default::default() });
+    let expanded = st.set_receive_window(unsafe { VarInt::from_u64_unchecked(new_window) });
+    assert!(expanded == (new_window > window));
+    assert!(st.receive_window == new_window);
+    assert!(st.local_max_data >= local_max);
+    if new_window > window {
+        assert!(st.local_max_data == local_max.saturating_add(new_window - window));
+        assert!(st.receive_window_shrink_debt == debt);
+    } else {
+        assert!(st.local_max_data == local_max);
+        assert!(st.receive_window_shrink_debt == debt.saturating_add(window - new_window));
+    }
+    core::mem::forget(st);
+    if expanded { 1 } else { 2 }
+}
+
+/// C06/C02: `queue_max_stream_id`: MAX_STREAMS is queued exactly when more than 1/8 of the
+/// concurrency window of new stream credit is unannounced.
+pub fn queue_max_stream_id(max_remote_bi: u64, sent_bi: u64, conc_bi: u64, max_remote_uni: u64, sent_uni: u64, conc_uni: u64) -> u32 {
+    if sent_bi > max_remote_bi || sent_uni > max_remote_uni {
+        return 0;
+    }
+    let mut st = mk_streams(&Scalars {
+        max_remote: [max_remote_bi, max_remote_uni], sent_max_remote: [sent_bi, sent_uni],
+        max_concurrent_remote_count: [conc_bi, conc_uni], ..Default::default()
+    });
+    let mut pending = Retransmits::default();
+    let q = st.queue_max_stream_id(&mut pending);
+    let wb = max_remote_bi - sent_bi > conc_bi / 8;
+    let wu = max_remote_uni - sent_uni > conc_uni / 8;
+    assert!(pending.max_stream_id[Dir::Bi as usize] == wb);
+    assert!(pending.max_stream_id[Dir::Uni as usize] == wu);
+    assert!(q == (wb || wu));
+    core::mem::forget(st);
+    core::mem::forget(pending);
+    1 | (if wb { 2 } else { 0 }) | (if wu { 4 } else { 0 })
+}
+
+/// `max_send_data` picks the peer's transport parameter that applies to the stream's kind.
+pub fn max_send_data(server: bool, raw_id: u64, uni: u64, bidi_local: u64, bidi_remote: u64) -> u32 {
+    if raw_id >= V62 || uni >= V62 || bidi_local >= V62 || bidi_remote >= V62 {
+        return 0;
+    }
+    let mut st = mk_streams(&Scalars { server, ..Default::default() });
+    st.initial_max_stream_data_uni = unsafe { VarInt::from_u64_unchecked(uni) };
+    st.initial_max_stream_data_bidi_local = unsafe { VarInt::from_u64_unchecked(bidi_local) };
+    st.initial_max_stream_data_bidi_remote = unsafe { VarInt::from_u64_unchecked(bidi_remote) };
+    let got = st.max_send_data(crate::StreamId(raw_id)).into_inner();
+    let local = (raw_id & 1 == 1) == server;
+    let want = if raw_id & 2 != 0 { uni } else if local { bidi_remote } else { bidi_local };
+    assert!(got == want);
+    assert!(st.is_local_unopened(crate::StreamId(raw_id)) == ((raw_id >> 2) >= st.next[((raw_id >> 1) & 1) as usize]));
+    core::mem::forget(st);
+    1
+}
